@@ -148,3 +148,110 @@ theorem run_neverFires : ∀ (f start : Nat) (end_ : Option Nat) (items : List (
             exact this.2
 
 end Genshi.Match
+
+namespace Genshi.Match
+open Genshi
+variable {σ : Type}
+
+/-! ### what the filter never changes in a template: everything but the matcher state,
+    the retired flag and the ghost counter -/
+
+def Shape (t t' : MT σ) : Prop :=
+  t'.step = t.step ∧ t'.body = t.body ∧ t'.once = t.once ∧ t'.recursive = t.recursive ∧ t'.buffered = t.buffered
+
+theorem Shape.refl (t : MT σ) : Shape t t := ⟨rfl, rfl, rfl, rfl, rfl⟩
+
+theorem Shape.trans {a b c : MT σ} (h1 : Shape a b) (h2 : Shape b c) : Shape a c := by
+  obtain ⟨a1, a2, a3, a4, a5⟩ := h1
+  obtain ⟨b1, b2, b3, b4, b5⟩ := h2
+  exact ⟨b1.trans a1, b2.trans a2, b3.trans a3, b4.trans a4, b5.trans a5⟩
+
+theorem test_shape (t : MT σ) (e : Event) (u : Bool) : Shape t (t.test e u).1 := by
+  unfold MT.test; split
+  · exact Shape.refl t
+  · exact ⟨rfl, rfl, rfl, rfl, rfl⟩
+
+theorem retire_shape (t : MT σ) : Shape t t.retire := ⟨rfl, rfl, rfl, rfl, rfl⟩
+
+/-- a property of templates that only reads the unchanging fields -/
+def Static (P : MT σ → Prop) : Prop := ∀ t t', Shape t t' → P t → P t'
+
+theorem scan_forall {P : MT σ → Prop} (hP : Static P) (e : Event) (start : Nat) (end_ : Option Nat) :
+    ∀ (i : Nat) (mts : List (MT σ)), (∀ t ∈ mts, P t) → ∀ t ∈ (scan e start end_ i mts).1, P t := by
+  intro i mts
+  induction mts generalizing i with
+  | nil => intro _ t ht; simp [scan] at ht
+  | cons t ts ih =>
+    intro h x hx
+    have hts : ∀ y ∈ ts, P y := fun y hy => h y (by simp [hy])
+    unfold scan at hx
+    by_cases hw : inWindow start end_ i = true
+    · simp only [hw, ↓reduceIte] at hx
+      by_cases hf : (t.test e false).2 = true
+      · simp only [hf, ↓reduceIte, List.mem_cons] at hx
+        rcases hx with rfl | hx
+        · exact hP t _ ⟨(test_shape t e false).1, (test_shape t e false).2.1, (test_shape t e false).2.2.1,
+            (test_shape t e false).2.2.2.1, (test_shape t e false).2.2.2.2⟩ (h t (by simp))
+        · exact hts x hx
+      · simp only [hf, Bool.false_eq_true, ↓reduceIte, List.mem_cons] at hx
+        rcases hx with rfl | hx
+        · exact hP t _ (test_shape t e false) (h t (by simp))
+        · exact ih (i + 1) hts x hx
+    · simp only [hw, Bool.false_eq_true, ↓reduceIte, List.mem_cons] at hx
+      rcases hx with rfl | hx
+      · exact h _ (by simp)
+      · exact ih (i + 1) hts x hx
+
+theorem scanEnd_forall {P : MT σ → Prop} (hP : Static P) (e : Event) (start : Nat) (end_ : Option Nat) :
+    ∀ (i : Nat) (mts : List (MT σ)), (∀ t ∈ mts, P t) → ∀ t ∈ scanEnd e start end_ i mts, P t := by
+  intro i mts
+  induction mts generalizing i with
+  | nil => intro _ t ht; simp [scanEnd] at ht
+  | cons t ts ih =>
+    intro h x hx
+    unfold scanEnd at hx
+    simp only [List.mem_cons] at hx
+    rcases hx with rfl | hx
+    · split
+      · exact hP t _ (test_shape t e false) (h t (by simp))
+      · exact h t (by simp)
+    · exact ih (i + 1) (fun y hy => h y (by simp [hy])) x hx
+
+theorem updRange_forall {P : MT σ → Prop} (hP : Static P) (e : Event) (lo hi : Nat) :
+    ∀ (i : Nat) (mts : List (MT σ)), (∀ t ∈ mts, P t) → ∀ t ∈ updRange e lo hi i mts, P t := by
+  intro i mts
+  induction mts generalizing i with
+  | nil => intro _ t ht; simp [updRange] at ht
+  | cons t ts ih =>
+    intro h x hx
+    unfold updRange at hx
+    simp only [List.mem_cons] at hx
+    rcases hx with rfl | hx
+    · split
+      · exact hP t _ (test_shape t e true) (h t (by simp))
+      · exact h t (by simp)
+    · exact ih (i + 1) (fun y hy => h y (by simp [hy])) x hx
+
+theorem retireAt_forall {P : MT σ → Prop} (hP : Static P) :
+    ∀ (i : Nat) (mts : List (MT σ)), (∀ t ∈ mts, P t) → ∀ t ∈ retireAt i mts, P t := by
+  intro i mts
+  induction mts generalizing i with
+  | nil => intro _ t ht; simp [retireAt] at ht
+  | cons t ts ih =>
+    intro h x hx
+    cases i with
+    | zero =>
+      simp only [retireAt, List.mem_cons] at hx
+      rcases hx with rfl | hx
+      · exact hP t _ (retire_shape t) (h t (by simp))
+      · exact h x (by simp [hx])
+    | succ i =>
+      simp only [retireAt, List.mem_cons] at hx
+      rcases hx with rfl | hx
+      · exact h _ (by simp)
+      · exact ih i (fun y hy => h y (by simp [hy])) x hx
+
+theorem static_neverFires : Static (NeverFires (σ := σ)) := by
+  intro t t' hs h st e u; rw [hs.1]; exact h st e u
+
+end Genshi.Match
